@@ -347,8 +347,8 @@ fn run_case(case: &J) -> J {
     let code = last.map(|r| r.out.code).unwrap_or(-2);
     let msg = last.map(|r| r.out.msg.clone()).unwrap_or_default();
     let log = &net.hosts[0].log;
-    let ids: Vec<&Req> = log.iter().filter(|(_, q)| q.function == "id").map(|(_, q)| q).collect();
-    let prelude_done = log.iter().filter(|(_, q)| q.function != "id").count();
+    let ids: Vec<&Req> = log.iter().filter(|(_, q, _)| q.function == "id").map(|(_, q, _)| q).collect();
+    let prelude_done = log.iter().filter(|(_, q, _)| q.function != "id").count();
 
     let (obs, class) = if panicked {
         ("ObsPanic".to_string(), "panic".to_string())
